@@ -376,7 +376,7 @@ func evalC10(c *Ctx, cs EnumCase) EnumResult {
 				vs = append(vs, explore.Violation{Sig: "C10:ex-leader-granted-after-quitting", Msg: msg})
 			}
 		case "follower-expiry":
-			msg, e := runFollowerExpiry(sq[0])
+			msg, e := runFollowerExpiry(sq[0], len(sq) > 1 && sq[1] == 1)
 			if e != "" {
 				return EnumResult{Err: e}
 			}
@@ -453,7 +453,11 @@ func runHeldStream(steps []wStep, text bool) (msg string, err string) {
 
 // runFollowerExpiry: a replicated hold with expiry E is not ended by the follower on its own clock while
 // the leader is silent (stream held) until 300 s past the deadline; it ends when the leader's record arrives.
-func runFollowerExpiry(E int) (msg string, err string) {
+func runFollowerExpiry(E int, milli bool) (msg string, err string) {
+	unit, un, ef := int64(sec), "s", uint16(efZeroAof)
+	if milli {
+		unit, un, ef = int64(ms), "ms", uint16(efZeroAof|fMilli)
+	}
 	rt := vrt.Run(vrt.Options{MaxPoints: 400_000_000}, func() {
 		cl, e := StartLeaderFollowers(1, nil)
 		if e != nil {
@@ -461,8 +465,8 @@ func runFollowerExpiry(E int) (msg string, err string) {
 			return
 		}
 		c, _ := wire.Dial(cl.Addrs[0])
-		_ = c.Send(wire.BinFrame(withEF(hapi.Cmd{Type: 1, Req: 1, Key: 1, Id: 1, Expried: uint16(E)}, efZeroAof)))
-		vrt.AdvanceTo(vrt.Elapsed() + 500*ms)
+		_ = c.Send(wire.BinFrame(withEF(hapi.Cmd{Type: 1, Req: 1, Key: 1, Id: 1, Expried: uint16(E)}, ef)))
+		vrt.AdvanceTo(vrt.Elapsed() + 200*ms)
 		t0 := vrt.Elapsed()
 		var k1 [16]byte
 		k1[15] = 1
@@ -476,14 +480,14 @@ func runFollowerExpiry(E int) (msg string, err string) {
 				l.BtoA.Hold = true
 			}
 		}
-		for _, dt := range []int64{int64(E)*sec + 3*sec, int64(E)*sec + 100*sec, int64(E)*sec + 290*sec} {
+		for _, dt := range []int64{int64(E)*unit + 3*sec, int64(E)*unit + 100*sec, int64(E)*unit + 290*sec} {
 			vrt.AdvanceTo(t0 + dt)
-			if held(cl.Nodes[0]) && dt > int64(E)*sec+2*sec {
-				msg = fmt.Sprintf("leader still holds the lock %d s after taking it with expiry %d", dt/sec, E)
+			if held(cl.Nodes[0]) && dt > int64(E)*unit+2*sec {
+				msg = fmt.Sprintf("leader still holds the lock %d s after taking it with expiry %d %s", dt/sec, E, un)
 				return
 			}
 			if !held(cl.Nodes[1]) {
-				msg = fmt.Sprintf("the follower ended the replicated hold (expiry %d s) on its own clock %d s after the grant although the leader's stream was silent (it must wait up to 300 s past the deadline)", E, dt/sec)
+				msg = fmt.Sprintf("the follower ended the replicated hold (expiry %d %s) on its own clock %d s after the grant although the leader's stream was silent (it must wait up to 300 s past the deadline)", E, un, dt/sec)
 				return
 			}
 		}
@@ -758,6 +762,13 @@ func c10Cases(quick bool) []EnumCase {
 			continue
 		}
 		out = append(out, mkCase(fmt.Sprintf("follower-expiry/E%d", E), c10Arg{Kind: "follower-expiry", Seqs: [][]int{{E}}}))
+	}
+	// ... and holds given in milliseconds (below 3000 ms they are ended by the millisecond timer, above by the second wheel)
+	for _, E := range []int{400, 1200, 2999, 3500} {
+		if quick && (E == 400 || E == 2999) {
+			continue
+		}
+		out = append(out, mkCase(fmt.Sprintf("follower-expiry/E%dms", E), c10Arg{Kind: "follower-expiry", Seqs: [][]int{{E, 1}}}))
 	}
 	for _, E := range []int{4, 6, 9, 30} {
 		for imm := 0; imm <= 1; imm++ {
